@@ -217,4 +217,16 @@ example : (sessionPacketInput c06Cipher (fun (n : Nat) _ => n + 1) 0 (c06Good.se
 example : (sessionPacketInput c06Cipher (fun (n : Nat) _ => n + 1) 0 (c06Good.take 19)).counters = [] := by
   decide +kernel
 
+-- the hypotheses of `C06_crc32_burst` are satisfiable: a full 32-bit burst (bits 15..46 of an
+-- 8-byte string) changes the checksum of EVERY 8-byte string
+example (a : List UInt8) (h : a.length = 8) :
+    Crc32.crc32 (Crc32.xorBytes a [0, 0x80, 0xff, 0xff, 0xff, 0x7f, 0, 0]) ≠ Crc32.crc32 a :=
+  C06_crc32_burst a _ 15 17 (List.replicate 32 true) (by simp [h]) (by decide) (by decide) (by decide)
+
+-- the bound 32 is sharp: the 33-bit pattern of the generator polynomial x^32+x^26+…+x+1 (highest
+-- degree first) has a zero linear CRC, i.e. XOR-ing it into the covered bytes is NOT detected
+example : Crc32.run 0 [true, false, false, false, false, false, true, false, false, true, true, false, false, false,
+    false, false, true, false, false, false, true, true, true, false, true, true, false, true, true, false, true, true,
+    true] = 0 := by decide +kernel
+
 end KcpVerif.Props
